@@ -171,6 +171,9 @@ func requests() []reqSpec {
 		q("mutation", `mutation{m(v:1)}`, "Mutation.m"),
 		{Name: "two-ops-second", Query: `query A{a} query B{name}`, OpName: "B", Accept: true, Roots: []string{"Query.name"}, ValidatorDecides: true},
 		q("fragment", `{...F} fragment F on Query{echo(s:"x")}`, "Query.echo"),
+		// white space that is significant: the comment of the second text swallows the brace
+		q("a-comment", "{a # c\n}", "Query.a"),
+		bad("comment-swallows-brace", "{a # c }"),
 		bad("unknown-field", `{a nosuch}`),
 		bad("unknown-field-only", `{nosuch}`),
 		bad("unknown-arg", `{b(y:1)}`),
@@ -441,10 +444,10 @@ func sequentialShard(tier string, shard, n int, deadline time.Time) seqResult {
 		byName[r.Name] = r
 	}
 	crossCheckValidator(rs)
-	maxExt, histNames := 3, []string{"a", "unknown-field", "two-ops-second"}
+	maxExt, histNames := 3, []string{"a", "unknown-field", "two-ops-second", "a-comment"}
 	caches := []string{"none", "lru1", "map"}
 	if tier == "thorough" {
-		maxExt, histNames = 3, []string{"a", "a-name", "unknown-field", "mutation", "two-ops-second"}
+		maxExt, histNames = 3, []string{"a", "a-name", "unknown-field", "mutation", "two-ops-second", "a-comment"}
 		caches = []string{"none", "map", "lru1", "lru8"}
 	}
 	var hists [][]string
